@@ -1297,6 +1297,41 @@ fn stair_check(n: usize, longs: &[(usize, i64)], order: &str, cc: &mut CaseCtx) 
     cc.outcome(&(n, longs, abt_render(&t).map(|r| crate::ctx::hash_of(&r.0)).unwrap_or(0)));
 }
 
+/// a staircase far beyond the small bounds: 2^k entries straddle every level count of the
+/// implicit tree up to 20 levels (traversal stacks, level shifts); few queries, linear oracle
+fn huge_check(n: usize, order: &str, cc: &mut CaseCtx) {
+    let longs = [(0usize, 2 * n as i64), (n / 2, 10i64)];
+    let ents = stair_entries(n, &longs);
+    let mut t = ATree::new();
+    for i in order_perm(order, n) {
+        let (a, b, d) = ents[i];
+        t.insert(a..b, d);
+    }
+    cc.set_nontrivial(true);
+    if let Err(msg) = guard(|| t.index()) {
+        cc.violation("C07/array/index/panic", format!("index() with {} entries: {}", n, msg));
+        return;
+    }
+    let mut model = ents;
+    model.sort();
+    let top = 2 * n as i64;
+    let queries = [(0, 1), (1, 2), (3, 4), (top / 2, top / 2 + 1), (top - 2, top - 1), (top - 1, top), (top + 5, top + 6), (-5, -4), (top / 4, top / 4 + 7), (0, top + 1)];
+    abt_check_queries(&t, &model, &queries, "huge", true, cc);
+    cc.outcome(&(n, order));
+}
+
+fn huge_sizes(tier: Tier) -> Vec<usize> {
+    tier.pick(vec![(1 << 16) - 1, 1 << 16, (1 << 19) + 3], vec![(1 << 16) - 1, 1 << 16, (1 << 17) + 1, (1 << 19) - 1, 1 << 19, (1 << 19) + 3, (1 << 20) + 1])
+}
+
+fn huge_unit(tier: Tier, ctx: &mut Ctx) {
+    for n in huge_sizes(tier) {
+        for order in ["asc", "stride"] {
+            ctx.case(|| json!({"kind": "huge-stair", "n": n, "order": order}), |cc| huge_check(n, order, cc));
+        }
+    }
+}
+
 /// (length of the first, length of the second long member)
 fn pair_lengths(tier: Tier) -> &'static [(i64, i64)] {
     match tier {
@@ -1996,6 +2031,7 @@ enum Unit {
     Misc,
     Annot(usize),
     Constructors,
+    Huge,
 }
 
 /// heaviest first: the driver hands units out in this order
@@ -2025,6 +2061,7 @@ fn unit_list(tier: Tier) -> Vec<(String, Unit)> {
         v.push((format!("avl-families-{}", s), Unit::AvlFamily(s)));
     }
     v.push(("constructors".to_string(), Unit::Constructors));
+    v.push(("array-huge".to_string(), Unit::Huge));
     v
 }
 
@@ -2083,6 +2120,7 @@ impl Prop for C07Prop {
             }
             Some(Unit::Annot(s)) => annot_unit(s, tier, ctx),
             Some(Unit::Constructors) => constructors_unit(tier, ctx),
+            Some(Unit::Huge) => huge_unit(tier, ctx),
             None => {}
         }
     }
@@ -2103,6 +2141,11 @@ impl Prop for C07Prop {
                 let width = WIDTHS.iter().find(|o| case["width"] == **o).copied().unwrap_or("w1");
                 let n = case["n"].as_u64().unwrap_or(0) as usize;
                 ctx.case(|| case.clone(), |cc| avl_family_check(order, width, n, cc));
+            }
+            "huge-stair" => {
+                let n = (case["n"].as_u64().unwrap_or(0) as usize).min(1 << 22);
+                let order = ["asc", "rev", "stride"].iter().find(|o| case["order"] == **o).copied().unwrap_or("asc");
+                ctx.case(|| case.clone(), |cc| huge_check(n, order, cc));
             }
             "stair" => {
                 let n = case["n"].as_u64().unwrap_or(0) as usize;
